@@ -1131,6 +1131,16 @@ package decimal128
 //@ loop 4: invariant rs(V, exp) * oSig[0] == sig64 * oSig[0] + rem64 && rem64 != 0 && carry == 0 && exp <= bexp(d) - bexp(o) + 6176
 //@ loop 4: invariant exp >= bexp(d) - bexp(o) + 6176 - 75
 //@ loop 4: decreases 18446744073709551616 - rem64
+//@ ghost G3 int = 0
+//@ ghost R3 int = 0
+//@ ghost after "var carry uint64": G3 = exp
+//@ ghost after "var carry uint64": R3 = rem64
+//@ ghost before "if carry != 0 {": G3 = exp
+//@ ghost before "if carry != 0 {": R3 = rem64
+//@ loop 3: invariant G3 == exp && R3 == rem64
+//@ loop 4: invariant exp <= G3 && (exp == G3 ==> rem64 == R3)
+//@ loop 5: invariant exp <= G3 && (exp == G3 ==> rem64 == R3)
+//@ loop 3: decreases exp - (bexp(d) - bexp(o) + 6176 - 75)
 //@ loop 5: invariant rs(V, exp) * oSig[0] == sig64 * oSig[0] + rem64 && rem64 != 0 && carry == 0 && exp <= bexp(d) - bexp(o) + 6176
 //@ loop 5: invariant exp >= bexp(d) - bexp(o) + 6176 - 75
 //@ loop 5: decreases 18446744073709551616 - rem64
